@@ -405,13 +405,15 @@ fn check_attributes(start: &BytesStart<'_>) -> DeResult {
     Ok(())
 }
 
-/// Checks the `Name` production of XML 1.0 (any non-ASCII character is let through)
+/// Checks a name: one or two non-empty `NCName`s joined by a colon (any non-ASCII character is let through)
 fn is_xml_name(name: &[u8]) -> bool {
-    let is_start = |b: u8| b.is_ascii_alphabetic() || matches!(b, b'_' | b':') || !b.is_ascii();
-    match name.split_first() {
+    let is_start = |b: u8| b.is_ascii_alphabetic() || b == b'_' || !b.is_ascii();
+    let is_nc_name = |part: &[u8]| match part.split_first() {
         Some((&first, rest)) => is_start(first) && rest.iter().all(|&b| is_start(b) || b.is_ascii_digit() || matches!(b, b'-' | b'.')),
         None => false,
-    }
+    };
+    let mut parts = name.splitn(2, |&b| b == b':');
+    parts.next().is_some_and(is_nc_name) && parts.next().is_none_or(is_nc_name)
 }
 
 /// helper
